@@ -9,7 +9,7 @@ import re
 
 from ..engine import rule
 from ..descriptors import arm_descriptors
-from ..py_frontend import (dotted, call_name, calls_under, walk, param_names, is_name, src, pycfg)
+from ..py_frontend import (dotted, call_name, calls_under, walk, param_names, is_name, src, pycfg, pmatch)
 from ..cfg import cfg_of, const_eval
 from ..cxx_ir import CALL_KINDS
 from .common import (short, inst, live_funcs, calls_in, callee_func, member_path, enclosing_map,
@@ -662,3 +662,119 @@ def n3(ctx):
                   '%s.field resolves an integer entry in %s (%s)' % (cls, want, why),
                   '%s.field resolves an integer entry in %s, but %s: the accessor addresses another '
                   'attribute than the child it stands for' % (cls, got, why), mod.loc(fn))
+
+
+# ---------------------------------------------------------------------------------------------
+def _mro(mod, cls, seen=None):
+    """linearised bases of a class defined in the module (left to right, depth first: enough for
+    the single-inheritance chains of accessor.py)"""
+    seen = seen if seen is not None else []
+    if cls in seen or cls not in mod.classes:
+        return seen
+    seen.append(cls)
+    for b in mod.classes[cls].bases:
+        bn = b.value.id if isinstance(b, ast.Subscript) and isinstance(b.value, ast.Name) else \
+            (b.id if isinstance(b, ast.Name) else None)
+        if bn:
+            _mro(mod, bn, seen)
+    return seen
+
+
+def _resolve_method(mod, cls, name):
+    for c in _mro(mod, cls):
+        fn = mod.funcs.get('%s.%s' % (c, name))
+        if fn is not None:
+            return c, fn
+    return None, None
+
+
+def _canon_attr(mod, cls, attr, depth=0):
+    """follow property aliases `return self.<other>` to the attribute that carries the value"""
+    if depth > 4:
+        return attr
+    c, fn = _resolve_method(mod, cls, attr)
+    if fn is None:
+        return attr
+    rets = [s_ for s_ in walk(fn) if isinstance(s_, ast.Return)]
+    if len(rets) == 1:
+        m = pmatch(rets[0].value, 'self.?a') if False else None
+        v = rets[0].value
+        if isinstance(v, ast.Attribute) and is_name(v.value, 'self'):
+            return _canon_attr(mod, cls, v.attr, depth + 1)
+    return attr
+
+
+def _call_form(mod, cls, fn):
+    """('item'|'attr', canonical attribute) of `__call__`"""
+    obj = [a.arg for a in fn.args.posonlyargs + fn.args.args][1:2]
+    for s_ in walk(fn):
+        if isinstance(s_, ast.Return) and obj:
+            v = s_.value
+            if isinstance(v, ast.Subscript) and is_name(v.value, obj[0]) and \
+                    isinstance(v.slice, ast.Attribute) and is_name(v.slice.value, 'self'):
+                return ('item', _canon_attr(mod, cls, v.slice.attr))
+            if isinstance(v, ast.Call) and call_name(v) == 'getattr' and len(v.args) == 2 and \
+                    is_name(v.args[0], obj[0]) and isinstance(v.args[1], ast.Attribute) and \
+                    is_name(v.args[1].value, 'self'):
+                return ('attr', _canon_attr(mod, cls, v.args[1].attr))
+    return None
+
+
+def _codify_form(mod, cls, fn):
+    node = [a.arg for a in fn.args.posonlyargs + fn.args.args][1:2]
+    for s_ in walk(fn):
+        if isinstance(s_, ast.Return) and isinstance(s_.value, ast.JoinedStr) and node:
+            parts = s_.value.values
+            if len(parts) >= 3 and isinstance(parts[0], ast.FormattedValue) and is_name(parts[0].value, node[0]):
+                lit = ''.join(p_.value for p_ in parts if isinstance(p_, ast.Constant) and isinstance(p_.value, str))
+                fvs = [p_ for p_ in parts[1:] if isinstance(p_, ast.FormattedValue)]
+                if len(fvs) == 1 and isinstance(fvs[0].value, ast.Attribute) and is_name(fvs[0].value.value, 'self'):
+                    attr = _canon_attr(mod, cls, fvs[0].value.attr)
+                    if lit == '[]' and fvs[0].conversion == ord('r'):
+                        return ('item', attr)
+                    if lit == '.' and fvs[0].conversion == -1:
+                        return ('attr', attr)
+                    return ('other:%s' % lit, attr)
+    return None
+
+
+@rule('N4', floor=5, title='codify() of an entry class is the source text of what __call__ does')
+def n4(ctx):
+    """`accessor(tree)` and `eval(accessor.codify('tree'))` must address the same object.  Per
+    entry class (methods resolved through the bases): __call__ is `obj[self.x]` and codify
+    `{node}[{self.x!r}]`, or __call__ is `getattr(obj, self.x)` and codify `{node}.{self.x}`, with
+    the same attribute after following property aliases; the namedtuple / struct sequence classes
+    index by position and print the field name of that position (N3 ties the two together)."""
+    pkg = ctx.py()
+    mod = pkg.mod('optree.accessor')
+    n = 0
+    for cls in sorted(mod.classes):
+        if cls not in ('GetItemEntry', 'GetAttrEntry', 'SequenceEntry', 'MappingEntry', 'NamedTupleEntry',
+                       'StructSequenceEntry', 'DataclassEntry'):
+            continue
+        c1, call = _resolve_method(mod, cls, '__call__')
+        c2, cod = _resolve_method(mod, cls, 'codify')
+        ctx.require(call is not None and cod is not None, 'accessor.%s: __call__ / codify not found' % cls)
+        cf, df = _call_form(mod, cls, call), _codify_form(mod, cls, cod)
+        ctx.require(cf is not None and df is not None,
+                    'accessor.%s: shape of __call__ (%s) / codify (%s) not recognised' % (cls, cf, df))
+        n += 1
+        positional_name = cls in N3_TABLE and cf == ('item', 'entry') and df == ('attr', 'field')
+        ctx.check('accessor.%s/call~codify' % cls, cf == df or positional_name,
+                  '%s: __call__ is %s, codify prints %s%s' % (cls, cf, df, ' (field of that position, N3)'
+                                                              if positional_name else ''),
+                  '%s: __call__ addresses %s but codify() prints %s: the generated code string does '
+                  'not evaluate to what the accessor returns' % (cls, cf, df), mod.loc(cod))
+    # the accessor folds its entries in the same (forward) order for both
+    for meth, pat in (('__call__', '?o = ?e(?o)'), ('codify', '?s = ?e.codify(?s)')):
+        fn = mod.funcs.get('PyTreeAccessor.' + meth)
+        ctx.require(fn is not None, 'PyTreeAccessor.%s not found' % meth)
+        loops = [l for l in walk(fn) if isinstance(l, ast.For) and is_name(l.iter, 'self')]
+        ok = len(loops) == 1 and isinstance(loops[0].target, ast.Name) and len(loops[0].body) == 1 and \
+            pmatch(loops[0].body[0], pat, {'e': loops[0].target.id}) is not None
+        n += 1
+        ctx.check('accessor.PyTreeAccessor/%s-folds-forward' % meth, ok,
+                  'PyTreeAccessor.%s applies the entries from the root downwards' % meth,
+                  'PyTreeAccessor.%s does not fold over `for entry in self` one entry at a time' % meth,
+                  mod.loc(fn))
+    ctx.require(n >= 5, 'only %d entry classes checked' % n)
